@@ -439,6 +439,8 @@ func (w *World) BuildReq(e Event) Req {
 			rq.Path = "/no/lock/zone"
 		case "alt3":
 			rq.Path = "/ok/login/zone"
+		case "bare":
+			rq.Path = "/bare"
 		}
 	default:
 		panic("BuildReq: unknown act " + e.Act)
@@ -679,6 +681,23 @@ func (w *World) Step(e Event) (RespObs, *Req, Resp) {
 	case "AppKey":
 		w.In.Sess.Set(e.B, AppKeys[e.K], "v-"+e.K)
 		return envResp(), nil, Resp{}
+	}
+	if e.Junk == "none" || e.Junk == "" {
+		// a rejecting class without a chosen variant (TLC-generated and exhaustively explored events):
+		// rotate through the concrete variants so that every replay tries another hostile spelling
+		w.junkN++
+		switch {
+		case (e.Act == "LoginPost" || e.Act == "RegisterPost") && e.Pw <= 0 && e.Valid:
+			e.Junk = []string{"wrong", "empty", "hash", "prefix", "nul", "long"}[w.junkN%6]
+		case (e.Act == "ConfirmGet" || e.Act == "RecoverEnd") && e.Tok <= 0:
+			e.Junk = []string{"garbage", "empty", "flip:0", "flip:511", "flip:256", "trunc", "ext", "trail", "splice", "stored", "zero"}[w.junkN%11]
+		case e.Act == "OtpLoginPost" && e.Tok <= 0:
+			e.Junk = []string{"garbage", "empty", "hash"}[w.junkN%3]
+		case e.Act == "EmailVerifyEnd" && e.Tok <= 0:
+			e.Junk = []string{"garbage", "empty", "missing"}[w.junkN%3]
+		case e.Act == "OAuthCallback" && e.Tok <= 0:
+			e.Junk = []string{"garbage", "empty", "nostate"}[w.junkN%3]
+		}
 	}
 	rq := w.BuildReq(e)
 	w.rebaseSMS()
